@@ -16,6 +16,7 @@ func debugCase(line string) {
 		panic(err)
 	}
 	r := coqfmt.NewRng(in.State)
+	wrapMode = in.Wrap
 	T := genType(r, 0, in.Depth, in.Width)
 	PT := ptrify.Pointerify(T, reflect.New(T).Elem())
 	bad := 0
@@ -35,7 +36,7 @@ func debugCase(line string) {
 			}
 			text = corrupt(coqfmt.NewRng(in.Mut), text)
 		}
-		v, err, p := decodeSafe(f, text, PT)
+		v, err, p := decodeWith(in.Wrap, f, text, PT)
 		fmt.Printf("---- %s\n%s\n=> panic=%v err=%v\n", fmtNames[f], text, p, err)
 		if err == nil {
 			fmt.Println(summarize(v))
